@@ -74,7 +74,9 @@ def main():
         # the harness no longer builds against the tree: the tie cannot be established
         out.violation("harness-build", "harness does not build against the current tree", {"broken": "harness build", "detail": str(e)[-3000:], "no_failing_input_found": True})
         cov.setdefault("evaluations", 0)
-    if not proof_ok and not out.violations:
+    fresh_found = [v for v in out.violations if v[0] not in open_signatures(prop)]
+    if not proof_ok and not fresh_found:
+        # a reproduced KNOWN finding is not the failing input of a newly broken obligation
         out.violation("proof-broken", "proof obligation no longer checks and no failing input was found",
                       {"broken": broken, "no_failing_input_found": True})
     elif not proof_ok:
